@@ -156,6 +156,40 @@ theorem tableOfPairs_nodup (t : Table) (nd : (t.map (·.1)).Nodup) : tableOfPair
   rw [foldl_tableInsert t [] (by simpa using nd)]
   simp
 
+/-- a Python dict has distinct keys: whatever sequence of insertions built it -/
+theorem tableInsert_keys_nodup (d : Table) (k : Int × Int) (v : Int) (h : (d.map (·.1)).Nodup) :
+    ((tableInsert d k v).map (·.1)).Nodup := by
+  unfold tableInsert
+  split
+  · have : (d.map (fun e => if e.1 == k then (k, v) else e)).map (·.1) = d.map (·.1) := by
+      rw [List.map_map]
+      apply List.map_congr_left
+      intro e _
+      simp only [Function.comp]
+      split
+      · rename_i hk; simpa using (Eq.symm (by simpa using hk))
+      · rfl
+    rw [this]; exact h
+  · rename_i hany
+    rw [List.map_append, List.nodup_append]
+    refine ⟨h, by simp, ?_⟩
+    intro a ha b hb hab
+    simp only [List.map_cons, List.map_nil, List.mem_singleton] at hb
+    subst hb; subst hab
+    apply hany
+    rw [List.any_eq_true]
+    obtain ⟨e, he, rfl⟩ := List.mem_map.1 ha
+    exact ⟨e, he, by simp⟩
+
+theorem tableOfPairs_keys_nodup (ps : List ((Int × Int) × Int)) :
+    ((tableOfPairs ps).map (·.1)).Nodup := by
+  unfold tableOfPairs
+  suffices ∀ (acc : Table), (acc.map (·.1)).Nodup →
+      ((ps.foldl (fun d p => tableInsert d p.1 p.2) acc).map (·.1)).Nodup from this [] (by simp)
+  induction ps with
+  | nil => intro acc h; exact h
+  | cons p ps ih => intro acc h; exact ih _ (tableInsert_keys_nodup acc p.1 p.2 h)
+
 theorem zip3_table (t : Table) :
     ((t.map (·.1.1)).zip (t.map (·.1.2))).zip (t.map (·.2)) = t := by
   induction t with
@@ -320,6 +354,39 @@ theorem load_save (N : Nat) (t0 : Sample) (rest : List Sample)
   rw [foldlM_loadStep t0.cls f'.shared.dict N _ (t0 :: rest) [] hdec (by simpa using hlen)]
   rfl
 
+
+/-! ### holders filled through `add_theta` -/
+
+theorem foldlM_addTheta (N : Nat) : ∀ (ts acc : List Sample) (h : Holder),
+    ts.foldlM addTheta ⟨N, acc⟩ = .ok h → h = ⟨N, acc ++ ts⟩ ∧ (acc ++ ts).length ≤ N ∨ (ts = [] ∧ h = ⟨N, acc⟩) := by
+  intro ts
+  induction ts with
+  | nil => intro acc h hh; right; simp [pure, Except.pure] at hh; exact ⟨rfl, hh.symm⟩
+  | cons t ts ih =>
+    intro acc h hh
+    left
+    rw [List.foldlM_cons] at hh
+    by_cases hfull : acc.length ≥ N
+    · simp [addTheta, hfull, bind, Except.bind] at hh
+    · have hstep : addTheta ⟨N, acc⟩ t = .ok ⟨N, acc ++ [t]⟩ := by simp [addTheta, hfull]
+      rw [hstep] at hh
+      have hh' : ts.foldlM addTheta ⟨N, acc ++ [t]⟩ = .ok h := hh
+      rcases ih (acc ++ [t]) h hh' with ⟨h1, h2⟩ | ⟨h1, h2⟩
+      · exact ⟨by simpa using h1, by simpa using h2⟩
+      · subst h1
+        exact ⟨by simpa using h2, by simp; omega⟩
+
+theorem fill_ok (N : Nat) (ts : List Sample) (h : Holder) (hf : fill N ts = .ok h) :
+    h = ⟨N, ts⟩ ∧ (ts ≠ [] → ts.length ≤ N) := by
+  rcases foldlM_addTheta N ts [] h hf with ⟨h1, h2⟩ | ⟨h1, h2⟩
+  · exact ⟨by simpa using h1, fun _ => by simpa using h2⟩
+  · subst h1; exact ⟨h2, fun hne => absurd rfl hne⟩
+
+theorem Inst.table_keys_nodup (m : Inst) : (m.table.map (·.1)).Nodup := by
+  unfold Inst.table
+  cases m.cls
+  · simp
+  · exact tableOfPairs_keys_nodup _
 
 /-! ### concat, chain ids, evaluate -/
 
